@@ -216,7 +216,10 @@ def run_shard(ctx, spec):
     labels = ['U9', 'U11', 'U13', 'U14', 'U15', 'U16', 'U17', 'U18', 'U20', 'U23', 'SEN'] + ['V%02d' % b for b in range(35, 135, 5)]
     labels += labels_from_library(rnd, 3000 if ctx.tier == 'quick' else 40000)
     arbitrary = ['', 'weird', 'v40', 'V4', 'V', 'V035', 'V200', 'V1000', 'U', 'u13', 'SENIOR', 'OPEN', 'M40', 'W40', 'V40 ', ' V40', 'V99', 'V101',
-                 'V36', 'V79', 'V80', 'V81', 'U12', 'U19', 'U21', 'None']
+                 'V36', 'V79', 'V80', 'V81', 'U12', 'U19', 'U21', 'None',
+                 # characters str.isdigit() accepts and int() may not (superscripts, circled digits), other scripts' digits, signs
+                 'V8\u00b2', 'V\u00b2', 'V\u2460', 'V\uff18\uff10', 'V80\u00b2', 'V\u0668\u0660', 'V\u00bd', 'V+80', 'V-80', 'V 80', 'V8_0', 'V080', 'V0080',
+                 'V1e2', 'V80.0', 'V\u2078\u2070', 'V\u0f2a', 'V' + '9' * 50, 'V' + '0' * 50 + '80']
     chars = 'UVSEN0123456789 '
     arbitrary += [''.join(rnd.choice(chars) for _ in range(rnd.randrange(1, 6))) for _ in range(175)]
     labels = sorted(set(labels)) + arbitrary
